@@ -323,6 +323,7 @@ struct Live {
 }
 
 fn execute(scn: &Scn, property: &str) -> RunOutcome {
+    simmodel::normalise_hidden_state();
     let mut out = RunOutcome::default();
     let mut h = ObsHash::default();
     macro_rules! bail_panic {
